@@ -486,7 +486,7 @@ def unit_audit_count_expression():
         from cutplace import checks, errors
         ok = ["kind < 3", "kind<=2", "kind == 0", "kind != 1", "kind >= 2 and count < 5", "kind > 3 or count == 0", "kind + 1 < 5", "kind * 2 <= 10", "kind < 3 and not count > 7", "kind >= 1", "kind < 1e3", "kind < +5", "kind < 5 - 1"]
         bad = ["kind", "kind + 1", "kind < 3 or nosuch > 1", "kind < id", "kind < 3 or (lambda: 1)()", "kind < len('a')", "kind < 3 if count else True", "kind < count.real", "kind < [1][0]", "kind <", "kind < 3;", "kind = 3",
-               "kind < 3 or exit()", "kind < 3 or __import__('os')", "kind == 0 or (lambda: exit(4))()", "kind" + " + 1" * 3000 + " > 0", "kind < 'a'", "kind in (1, 2)", "kind < {1: 2}[1]", "kind < (yield)", "kind < (x := 3)", "kind\x00 < 3"]
+               "kind < 3 or exit()", "kind < 3 or __import__('os')", "kind == 0 or (lambda: exit(4))()", "kind" + " + 1" * 3000 + " > 0", "kind < 'a'", "kind in (1, 2)", "kind is 3", "kind is not 3", "kind not in (1, 2)", "kind < {1: 2}[1]", "kind < (yield)", "kind < (x := 3)", "kind\x00 < 3"]
         def cases():
             for r in ok: yield (r, True)
             for r in bad: yield (r, False)
@@ -496,7 +496,7 @@ def unit_audit_count_expression():
             except errors.InterfaceError: got = False
             except BaseException as e: return {"expected": "accepted or InterfaceError", "observed": "%s: %s" % (type(e).__name__, str(e)[:80])}
             return None if got == want else {"expected": "rule %s" % ("accepted" if want else "refused"), "observed": "accepted" if got else "refused"}
-        return [sweep("checks/DistinctCount rules: a comparison of the count built from numbers, arithmetic, and / or / not - nothing else", cases(), check, "audit", "13 rules to accept, 22 to refuse (names, calls, lambdas, attributes, subscripts, conditionals, no comparison, not parseable, thousands of operands)",
+        return [sweep("checks/DistinctCount rules: a comparison of the count built from numbers, arithmetic, and / or / not - nothing else", cases(), check, "audit", "13 rules to accept, 25 to refuse (names, calls, lambdas, attributes, subscripts, conditionals, no comparison, not parseable, thousands of operands)",
                       describe=lambda c: {"rule": c[0][:80]}, function="checks.DistinctCountCheck.__init__ / _validated_expression", unit="checks.count-expression-audit", props=["C09", "C10", "C05"])]
     return NativeUnit("checks.count-expression-audit", "audit of the contract of DistinctCountCheck._validated_expression (what counts as a plain expression over the count)", ["C09", "C10", "C05"], run, kind="audit")
 
